@@ -179,7 +179,7 @@ CLAIMS.update({
              "hypothesis EmpOk that the empty pattern gives every item score 0) the order clause is insertion order instead. The invariant also carries Pub: every index the worker "
              "accounts for holds a published item of its stream. Building blocks: the snapshot is replaced only by the result of a finished, un-cancelled run while the matcher is Fresh, and always together with that run's "
              "stream handle and processed-item count; the in-flight indices are processed in ascending order whatever order the pool threads report them in (repair of F11, with the "
-             "[5,3] regression decided in the model); placeholder entries sort behind real matches of equal score; the comparison closure itself is translated from src/worker.rs on every run (Gen/Worker.lean) and proved to be the model's matchLess (companion file C06_Translated). The run contract is a theorem for the two kinds of run that rebuild the list from the "
+             "[5,3] regression decided in the model); placeholder entries sort behind real matches of equal score; the comparison closure itself is translated from src/worker.rs on every run (Gen/Worker.lean) and proved to be the model's matchLess (companion file C06_Translated); the plan of Worker::run - the order of its steps and the three conditions that select the trivial path, reset_matches and the kind of pass - is translated too (Gen/RunPlan.lean) and proved to be the one the model's Worker.run follows (companion file C06_RunTranslated, restated for C07, C12, C13 and C19). The run contract is a theorem for the two kinds of run that rebuild the list from the "
              "worker's bookkeeping alone (companion file C06_RunContract): after a completed full-rescoring run - from ANY earlier state of the match list (left by completed, timed-out "
              "or cancelled runs) whose bookkeeping invariant BK holds, first run after restart included - the match list is a sorted permutation of exactly the current pattern's "
              "matches among the accounted items (earlier processed + newly published, in-flight ones excluded and recorded), BK holds again and item_count is the number of "
